@@ -133,6 +133,19 @@ def replay(s):
             st, r = outcome(lambda: seq.setComponentByName('f', obj))
             if st != 'ok':
                 out.append(('SubtypeValueRefused', 'field typed T1 refuses a T2 value (%r): %s' % (v, st)))
+        # the same derivation written the documented way: subtype(subtypeSpec=ConstraintsIntersection(...))
+        T2b = T1.subtype(subtypeSpec=constraint.ConstraintsIntersection(c2))
+        st, objb = outcome(lambda: T2b.clone(v))
+        if (st == 'ok') != ok or st == 'crash':
+            out.append(('ChainAdmits', 'T0->c1->Intersection(c2): T2.clone(%r) -> %s, model says %s' % (v, st, 'admitted' if ok else 'rejected')))
+        st, r = outcome(lambda: T1.isSuperTypeOf(T2b))
+        if st != 'ok' or not r:
+            out.append(('NotRecognisedAsSubtype', 'T1.isSuperTypeOf(T1.subtype(subtypeSpec=ConstraintsIntersection(c2))) -> %s %r' % (st, r)))
+        if ok and objb is not None:
+            so = univ.SequenceOf(componentType=T1)
+            st, r = outcome(lambda: so.append(objb))
+            if st != 'ok':
+                out.append(('SubtypeValueRefused', 'SEQUENCE OF T1 refuses a value of the derived type (%r): %s' % (v, st)))
         # a grandchild, derived the nested way, must not make the relation symmetric
         T3 = T2.subtype(subtypeSpec=constraint.ConstraintsIntersection(T2.subtypeSpec, c2))
         st, r = outcome(lambda: T1.isSuperTypeOf(T3))
